@@ -272,3 +272,6 @@ macro_rules! vharnesses {
 pub mod book {
     pub use crate::orderbook::verif_proofs::*;
 }
+
+#[cfg(kani)]
+pub use crate::market::verif_proofs::market_log;
